@@ -12,6 +12,7 @@ import (
 	"istio.io/istio/pkg/config/protocol"
 	"istio.io/istio/pkg/config/schema/gvk"
 	"istio.io/istio/pkg/config/visibility"
+	"istio.io/istio/pkg/kube/krt"
 	"istio.io/istio/pkg/util/sets"
 	vp "istio.io/istio/pkg/zzvp"
 )
@@ -430,4 +431,87 @@ func verifConfigDeepCopy(c config.Config) config.Config {
 			ExportTo: append([]string(nil), dr.ExportTo...), WorkloadSelector: dr.WorkloadSelector}
 	}
 	return out
+}
+
+// K6: VirtualService visibility. VirtualServicesForGateway hands a proxy namespace exactly the virtual services
+// exported to it (exportTo resolved by the controller: "*", explicit namespaces, "~"; unset = mesh default), once each.
+type verifVSList struct {
+	krt.Collection[MergedVirtualService] // nil: only List is used
+	list                                 []MergedVirtualService
+}
+
+func (c verifVSList) List() []MergedVirtualService { return c.list }
+
+var verifVSExportMenu = [][]string{nil, {"*"}, {"ns1"}, {"ns2"}, {"ns1", "ns3"}, {"~"}, {"*", "ns1"}}
+
+func VerifC07VirtualServiceVisibility() {
+	n := 1 + vp.Choice("vs", 2)
+	// a mesh default of "." is resolved into the ExportTo set by the VirtualService controller (not part of this kernel),
+	// so an unset ExportTo only reaches initVirtualServices under a public default
+	meshDefault := [][]string{nil, {"*"}}[vp.Choice("meshDefaultVSExportTo", 2)]
+	var all []MergedVirtualService
+	type shape struct {
+		name, ns string
+		exportTo []string
+	}
+	var shapes []shape
+	for i := 0; i < n; i++ {
+		p := vp.Name("vs", i)
+		ns := []string{"ns1", "ns2"}[vp.Choice(p+".ns", 2)]
+		ex := verifVSExportMenu[vp.Choice(p+".exportTo", len(verifVSExportMenu))]
+		cfg := &config.Config{
+			Meta: config.Meta{GroupVersionKind: gvk.VirtualService, Name: vp.Name("vs", i), Namespace: ns, CreationTimestamp: time.Unix(int64(2000+i), 0)},
+			Spec: &networking.VirtualService{Hosts: []string{"a.com"}, Gateways: []string{"mesh"}, Http: []*networking.HTTPRoute{{
+				Route: []*networking.HTTPRouteDestination{{Destination: &networking.Destination{Host: "a.com"}}}}}},
+		}
+		var set sets.Set[visibility.Instance]
+		if ex != nil {
+			set = sets.New[visibility.Instance]()
+			for _, e := range ex {
+				set.Insert(visibility.Instance(e))
+			}
+		}
+		all = append(all, MergedVirtualService{Config: cfg, ExportTo: set})
+		shapes = append(shapes, shape{name: cfg.Name, ns: ns, exportTo: ex})
+	}
+	env := &Environment{VirtualServiceController: &VirtualServiceController{outputs: Outputs{MergedVirtualServices: verifVSList{list: all}}}}
+	ps := NewPushContext()
+	ps.Mesh = &meshconfig.MeshConfig{RootNamespace: "istio-system", DefaultVirtualServiceExportTo: meshDefault}
+	ps.initDefaultExportMaps()
+	ps.initVirtualServices(env)
+	proxyNs := []string{"ns1", "ns2", "ns3"}[vp.Choice("proxyNs", 3)]
+	got := ps.VirtualServicesForGateway(proxyNs, "mesh")
+	vp.Reach("listed")
+	for _, s := range shapes {
+		eff := s.exportTo
+		if eff == nil {
+			eff = meshDefault
+			if eff == nil {
+				eff = []string{"*"}
+			}
+		}
+		visible, none := false, false
+		for _, e := range eff {
+			switch {
+			case e == "~":
+				none = true
+			case e == "*", e == proxyNs, e == "." && s.ns == proxyNs:
+				visible = true
+			}
+		}
+		if none {
+			visible = false
+		}
+		count := 0
+		for _, g := range got {
+			if g.Name == s.name && g.Namespace == s.ns {
+				count++
+			}
+		}
+		if visible {
+			vp.Assert(count == 1, "exported-virtual-service-is-listed-once")
+		} else {
+			vp.Assert(count == 0, "virtual-service-not-exported-to-the-namespace-is-not-listed")
+		}
+	}
 }
